@@ -350,6 +350,116 @@ def _run_session(seed: int, bounded: bool) -> dict[str, Any]:
         return {"events": [dict(EVD, ev="exception")], "meta": f"seed={seed} bounded={bounded} {type(exc).__name__}: {exc}"}
 
 
+def _run_dual(seed: int) -> list[dict[str, Any]]:
+    """Two TLS connections served by the same event loop at the same time: nothing of one may leak into the other."""
+
+    async def both() -> list[dict[str, Any]]:
+        return list(await asyncio.gather(_session(seed), _session(seed + 500_000)))
+
+    try:
+        out = vloop.run(both, spin_limit=400000)
+        for t in out:
+            t["meta"] = "two connections in one loop: " + t["meta"]
+        return out  # type: ignore[no-any-return]
+    except vloop.VirtualDeadlock:
+        return [{"events": [dict(EVD, ev="deadlock")], "meta": f"two connections in one loop seed={seed} VirtualDeadlock"}]
+    except Exception as exc:  # noqa: BLE001
+        return [{"events": [dict(EVD, ev="exception")], "meta": f"two connections in one loop seed={seed} {type(exc).__name__}: {exc}"}]
+
+
+class _SockPipe:
+    """The MemPipe reader / writer interface of tlspeer.Peer over a non-blocking socket."""
+
+    def __init__(self, sock: socket.socket) -> None:
+        self.sock = sock
+
+    async def read(self, n: int) -> bytes:
+        return await asyncio.get_running_loop().sock_recv(self.sock, n)
+
+    async def write(self, data: bytes) -> None:
+        await asyncio.get_running_loop().sock_sendall(self.sock, data)
+
+
+async def _two_connections_over_sockets(seed: int) -> list[dict[str, Any]]:
+    """Two TLS connections over the real asyncio socket adapter, both readers parked; their peers' records reach the two sockets inside
+    the same event-loop iteration (the ciphertext is handed to the kernel back to back, without yielding to the loop)."""
+    from easynetwork.lowlevel.api_async.backend._asyncio.backend import AsyncIOBackend
+    from easynetwork.lowlevel.api_async.transports.tls import AsyncTLSStreamTransport
+
+    rng = random.Random(seed)
+    backend = AsyncIOBackend()
+    conns = []
+    for _ in range(2):
+        a, b = socket.socketpair()
+        a.setblocking(False)
+        b.setblocking(False)
+        pipe = _SockPipe(b)
+        lib_is_server = rng.random() < 0.5
+        peer = tlspeer.Peer(pipe, pipe, server_side=not lib_is_server)  # type: ignore[arg-type]
+        hs = asyncio.ensure_future(peer.handshake())
+        inner = await backend.wrap_stream_socket(a)
+        if lib_is_server:
+            tls = await AsyncTLSStreamTransport.wrap(inner, tlspeer.server_context(), server_side=True, handshake_timeout=20)
+        else:
+            tls = await AsyncTLSStreamTransport.wrap(inner, tlspeer.client_context(), server_hostname="localhost", handshake_timeout=20)
+        await hs
+        conns.append({"a": a, "b": b, "peer": peer, "tls": tls, "events": [], "got": bytearray(), "sent": bytearray()})
+    problem = ""
+    try:
+        for rnd in range(rng.randint(3, 6)):
+            readers = [asyncio.ensure_future(c["tls"].recv(65536)) for c in conns]
+            for _ in range(3):
+                await asyncio.sleep(0)  # both readers are parked in the socket adapter
+            blobs = []
+            for i, c in enumerate(conns):
+                msg = bytes([65 + i]) * rng.choice([1, 50, 3000]) + b"#%d" % rnd
+                c["peer"].obj.write(msg)
+                blobs.append(c["peer"].out.read())
+                c["sent"] += msg
+                c["events"].append({"ev": "write", "d": "in", "n": len(msg), "ok": False})
+            for c, blob in zip(conns, blobs):
+                c["b"].send(blob)  # no await between the two: same iteration for the event loop
+            done, pending = await asyncio.wait(readers, timeout=10)
+            for c, r in zip(conns, readers):
+                if r in pending:
+                    r.cancel()
+                    problem = "a reader never woke up"
+                elif r.exception() is not None:
+                    problem = f"{type(r.exception()).__name__}: {r.exception()}"
+                else:
+                    data = r.result()
+                    # (a record may come out in several reads: take the rest)
+                    while len(c["got"]) + len(data) < len(c["sent"]):
+                        more = await asyncio.wait_for(c["tls"].recv(65536), 10)
+                        if not more:
+                            break
+                        data += more
+                    c["events"].append({"ev": "read", "d": "in", "n": len(data), "ok": bytes(c["sent"][len(c["got"]) : len(c["got"]) + len(data)]) == data})
+                    c["got"] += data
+            if problem:
+                break
+    except Exception as exc:  # noqa: BLE001
+        problem = f"{type(exc).__name__}: {exc}"
+    out = []
+    for i, c in enumerate(conns):
+        c["events"].append({"ev": "problem:" + problem[:60], "d": "", "n": 0, "ok": False} if problem else {"ev": "end", "d": "", "n": 0, "ok": False})
+        try:
+            await asyncio.wait_for(c["tls"].aclose(), 0.5)
+        except BaseException:  # noqa: BLE001
+            pass
+        c["a"].close()
+        c["b"].close()
+        out.append({"events": c["events"], "meta": f"two connections over socket adapters, records delivered in the same loop iteration: seed={seed} connection={i} problem={problem}"})
+    return out
+
+
+def _run_two_sockets(seed: int) -> list[dict[str, Any]]:
+    try:
+        return asyncio.run(asyncio.wait_for(_two_connections_over_sockets(seed), 60))
+    except Exception as exc:  # noqa: BLE001
+        return [{"events": [dict(EVD, ev="exception")], "meta": f"two connections over socket adapters seed={seed} {type(exc).__name__}: {exc}"}]
+
+
 def _run_unbounded(seed: int) -> dict[str, Any]:
     return _run_session(seed, False)
 
@@ -374,9 +484,10 @@ def _blocking_session(seed: int) -> dict[str, Any]:
     a, b = socket.socketpair()
     events: list[dict[str, Any]] = []
     lib_is_server = rng.random() < 0.5
-    out_writes = [rng.choice([1, 17, 5000, 40000]) for _ in range(rng.randint(1, 3))]
+    out_writes = [rng.choice([1, 17, 5000, 16392, 40000]) for _ in range(rng.randint(1, 3))] + [rng.choice([16392, 40000])]
     in_writes = [rng.choice([1, 17, 5000, 40000]) for _ in range(rng.randint(1, 3))]
-    out_stream = b"".join(bytes([65 + i]) * n for i, n in enumerate(out_writes))
+    # (the bytes of a write are not uniform: a reordering of its chunks must be visible)
+    out_stream = b"".join(bytes((65 + i + (j % 7)) % 256 for j in range(n)) for i, n in enumerate(out_writes))
     in_stream = b"".join(bytes([97 + i]) * n for i, n in enumerate(in_writes))
     peer_got = bytearray()
     peer_err: list[str] = []
@@ -417,7 +528,13 @@ def _blocking_session(seed: int) -> dict[str, Any]:
         pos = 0
         for n in out_writes:
             events.append({"ev": "write", "d": "out", "n": n})
-            tr.send_all(out_stream[pos : pos + n], 20)
+            data = out_stream[pos : pos + n]
+            if rng.random() < 0.35:
+                tr.send_all(data, 20)
+            else:
+                # a packet made of several chunks (header + body ...): small before big, big before small, with an empty one
+                k = rng.choice([0, 1, min(n, 8), min(n, 8), n // 2, max(n - 3, 0), n])
+                tr.send_all_from_iterable([data[:k], b"", data[k:]], 20)
             pos += n
         got = bytearray()
         while len(got) < len(in_stream):
@@ -456,10 +573,15 @@ def run(chk: Check) -> None:
 
     rec = pmap(_run_unbounded, [chk.seed * 1009 + i for i in range(40 if quick else 3000)], min_items=100)
     rec_b = pmap(_run_bounded, [chk.seed * 4001 + i for i in range(6 if quick else 300)], min_items=100)
-    rec_s = [_blocking_session(chk.seed * 17 + i) for i in range(6 if quick else 60)]
+    rec_s = [_blocking_session(chk.seed * 17 + i) for i in range(12 if quick else 150)]
     rec_p = pmap(_run_pingpong, [chk.seed * 7919 + i for i in range(12 if quick else 1000)], min_items=100)
     rec_a = pmap(_run_abandoned, [chk.seed * 6007 + i for i in range(8 if quick else 500)], min_items=100)
-    allrec = rec + rec_b + rec_s + rec_p + rec_a
+    rec_d: list[dict[str, Any]] = []
+    for part in pmap(_run_dual, [chk.seed * 3571 + i for i in range(10 if quick else 500)], min_items=100):
+        rec_d += part
+    for part in pmap(_run_two_sockets, [chk.seed * 2221 + i for i in range(6 if quick else 300)], min_items=100):
+        rec_d += part
+    allrec = rec + rec_b + rec_s + rec_p + rec_a + rec_d
     slim = [{"events": traces.uniform(t["events"], EVD)} for t in allrec]
     res = traces.validate("TLSStreamTrace", slim, cfg_text=TRACE_CFG, parallel=8, chunk=200)
     chk.traces += len(allrec)
@@ -469,7 +591,7 @@ def run(chk: Check) -> None:
     for t in allrec:
         chk.distinct.add(t["meta"])
     chk.sample({"meta": rec[0]["meta"], "events": [(e["ev"], e["d"], e["n"], e["ok"]) for e in rec[0]["events"][:14]]}, cap=3)
-    chk.extra["sessions"] = {"unbounded": len(rec), "bounded_pipe": len(rec_b), "blocking": len(rec_s), "request_response": len(rec_p), "abandoned_queued_sender": len(rec_a), "events": res.nevents, "rejected": len(res.rejected)}
+    chk.extra["sessions"] = {"unbounded": len(rec), "bounded_pipe": len(rec_b), "blocking": len(rec_s), "request_response": len(rec_p), "two_connections_in_one_loop": len(rec_d), "abandoned_queued_sender": len(rec_a), "events": res.nevents, "rejected": len(res.rejected)}
     for idx, pos in sorted(res.rejected.items())[:40]:
         t = allrec[idx]
         evs = t["events"]
